@@ -161,6 +161,11 @@ func (server *SugarDB) handleCommand(ctx context.Context, message []byte, conn *
 		handler = subCommand.HandlerFunc
 	}
 
+	if handler == nil {
+		// A command family (ACL, COMMAND, PUBSUB ...) without one of its subcommands has nothing to run.
+		return nil, fmt.Errorf("unknown subcommand or wrong number of arguments for %s", strings.ToUpper(cmd[0]))
+	}
+
 	if conn != nil && server.acl != nil && !embedded {
 		// Authorize connection if it's provided and if ACL module is present
 		// and the embedded parameter is false.
